@@ -90,9 +90,9 @@ def cmp_decisions(path, sym=None):
     return out
 
 
-def positive(p, allow_syms=None):
-    """Sign domain: True if p is certainly > 0 given that every symbol is positive.
-    (sum of positive-coefficient monomials over positive atoms)"""
+def positive(p, allow_syms=None, pos_fns=()):
+    """Sign domain: True if p is certainly > 0 given that every symbol (and every atom of a function
+    named in pos_fns) is positive: a sum of positive-coefficient monomials over positive atoms."""
     if not p:
         return False
     for m, c in p.items():
@@ -105,8 +105,10 @@ def positive(p, allow_syms=None):
             elif atom[0] in ("const", "E"):
                 continue
             elif atom[0] == "sum":
-                if not positive(nf.unkey(atom[1]), allow_syms):
+                if not positive(nf.unkey(atom[1]), allow_syms, pos_fns):
                     return False
+            elif atom[0] == "fn" and atom[1] in pos_fns:
+                continue
             else:
                 return False
     return True
